@@ -84,6 +84,19 @@ var c10Corners = []string{
 	"SELECT id, ASYNC.HPANIC(a) AS e FROM t",
 	"SELECT id, SPINASYNC.HPANIC(a) FROM t",
 	"SELECT id, HPANIC(a) AS e FROM t",
+	// evaluation deferred with AWAIT runs after the rows are built (post-processing): it panics or fails there
+	"SELECT id, AWAIT(HPANIC(a)) AS e FROM t",
+	"SELECT id, AWAIT(HPANICSTR(a)) AS e FROM t",
+	"SELECT id, AWAIT(ELEMENTAT(items, -1)) AS e FROM t",
+	"SELECT id, AWAIT((SELECT HPANIC(q) AS q FROM items)) AS e FROM t",
+	"SELECT * FROM (SELECT AWAIT(HPANIC(a)) AS e FROM t) AS d",
+	"WITH c AS (SELECT AWAIT(HPANIC(a)) AS e FROM t) SELECT * FROM c",
+	"SELECT id, (SELECT AWAIT(HPANIC(q)) AS e FROM items) AS s FROM t",
+	"SELECT id FROM t WHERE a IN (SELECT AWAIT(HPANIC(c)) AS c FROM `<-u`)",
+	"SELECT AWAIT(HPANIC(a)) AS e FROM t UNION ALL SELECT id AS e FROM t",
+	"SELECT * FROM t x JOIN (SELECT AWAIT(HPANIC(c)) AS c, b FROM u) y ON x.b = y.b",
+	"SELECT AWAIT(ASYNC.HPANIC(a)) AS e FROM t",
+	"SELECT AWAIT(AWAIT(HPANIC(a))) AS e FROM t",
 	// the ARGUMENT of a goroutine-run call panics or fails (not the called function)
 	"SELECT id, ASYNC.CONCAT(IF(n, 'y', 'n')) AS x FROM t",
 	"SELECT id, SPINASYNC.CONCAT(IF(n, 'y', 'n')) FROM t",
